@@ -265,6 +265,10 @@ def run(ck: Check):
         "the raw-layout clause (ImplLayout) is stronger than the property: it binds HDFStoreImpl to the code so that "
         "the invariants TLC checks on the layout transfer to the files gemseo writes",
     ]
+    # ---- specification growth (outside C11 as stated): maintenance operations + append exports, two files
+    from ..growth import g02_db_maintenance
+
+    g02_db_maintenance.run(ck)
 
 
 if __name__ == "__main__":
